@@ -118,6 +118,22 @@ def run_impl(logls, sched, expectation, nlive, int_schedule):
         twin_ok = twin_ok and float(twin.finalise()) == trap and np.array(twin.log_posterior_weights, dtype=float).tobytes() == lw.tobytes()
     _a = np.array(logls)
     _a0 = _a.tobytes()
+    # the same values handed over in other legal containers / dtypes (integer-valued words also as
+    # integer arrays and python lists) must give the same answer
+    variants_ok = True
+    if int_schedule:
+        alts = [list(float(v) for v in logls), tuple(float(v) for v in logls)]
+        if all(np.isfinite(v) and float(v).is_integer() and abs(v) < 2**31 for v in logls):
+            alts += [np.array(logls, dtype=np.int64), [int(v) for v in logls], np.array(logls, dtype=np.int32)]
+        try:
+            z_ref, w_ref = compute_weights(np.array(logls, dtype=float), nlive, expectation=expectation)
+            for alt in alts:
+                with np.errstate(all="ignore"):
+                    z_alt, w_alt = compute_weights(alt, nlive, expectation=expectation)
+                if float(z_alt) != float(z_ref) or np.asarray(w_alt, dtype=float).tobytes() != np.asarray(w_ref, dtype=float).tobytes():
+                    variants_ok = False
+        except Exception:
+            variants_ok = False
     if int_schedule:
         z1, w1 = compute_weights(_a, nlive, expectation=expectation)
     else:
@@ -126,7 +142,7 @@ def run_impl(logls, sched, expectation, nlive, int_schedule):
         z1, w1 = compute_weights(_a, _n, expectation=expectation)
         reads_ok = reads_ok and _n.tobytes() == _n0
     reads_ok = reads_ok and _a.tobytes() == _a0
-    return dict(rect=rect, vols=vols, trap=trap, lw=lw, z1=float(z1), w1=np.asarray(w1, dtype=float), reads_ok=reads_ok, twin_ok=twin_ok, ess=ess1,
+    return dict(rect=rect, vols=vols, trap=trap, lw=lw, z1=float(z1), w1=np.asarray(w1, dtype=float), reads_ok=reads_ok, twin_ok=twin_ok, variants_ok=variants_ok, ess=ess1,
                 logZ_attr=float(st.logZ), log_evidence=float(st.log_evidence))
 
 
@@ -154,6 +170,8 @@ def check_case(logls, sched, expectation, nlive, int_schedule, errs, label):
         errs.append((f"incremental-rectangle-logZ:{label}", f"{out['rect']!r} vs mpmath {rect!r} ({ctxt})"))
     if not close(out["trap"], trap, tol):
         errs.append((f"incremental-trapezoid-logZ:{label}", f"{out['trap']!r} vs mpmath {trap!r} ({ctxt})"))
+    if not out["variants_ok"]:
+        errs.append((f"one-pass-weights-depend-on-the-container-or-dtype-of-the-log-likelihoods:{label}", ctxt))
     if not out["twin_ok"]:
         errs.append((f"an-early-finalise-or-read-changes-what-is-accumulated-afterwards:{label}", ctxt))
     if not out["reads_ok"]:
